@@ -117,8 +117,10 @@ func _deploy(data any, isUpdate bool) {
 				storage.Put(ctx, append([]byte{containerKeyPrefix}, item.key...), item.value)
 			}
 
-			// Migrate owner-cid map.
-			if len(item.key) == 25 /* owner id size */ +containerIDSize {
+			// Migrate owner-cid map. A size estimation key ("cnr" + epoch + cid + 10
+			// bytes) has the same length when the epoch takes 12 bytes, skip it.
+			if len(item.key) == 25 /* owner id size */ +containerIDSize &&
+				string(item.key[:len(estimateKeyPrefix)]) != estimateKeyPrefix {
 				storage.Delete(ctx, item.key)
 				storage.Put(ctx, append([]byte{ownerKeyPrefix}, item.key...), item.value)
 			}
